@@ -149,6 +149,7 @@ theorem localRet_armCode (arm : List Simple) (r : Ret) (h : fenceArm arm = true)
       simpa [armCode, localRet] using ih h'
     | storeOldPlus k o => simp [fenceArm, Simple.isFence] at h
     | storeOldMinus k o => simp [fenceArm, Simple.isFence] at h
+    | storeLit v o => simp [fenceArm, Simple.isFence] at h
     | rmwSub n o => simp [fenceArm, Simple.isFence] at h
     | rmwAdd n o => simp [fenceArm, Simple.isFence] at h
 
@@ -166,6 +167,7 @@ theorem localAcq_armCode (arm : List Simple) (r : Ret) (h : fenceArm arm = true)
       rw [this]
     | storeOldPlus k o => simp [fenceArm, Simple.isFence] at h
     | storeOldMinus k o => simp [fenceArm, Simple.isFence] at h
+    | storeLit v o => simp [fenceArm, Simple.isFence] at h
     | rmwSub n o => simp [fenceArm, Simple.isFence] at h
     | rmwAdd n o => simp [fenceArm, Simple.isFence] at h
 
